@@ -354,6 +354,9 @@ void parse_opml_token_chain(mmd_engine * e, token * chain) {
 	// Clean up token chain
 	token_tree_free(chain);
 
+	// The root was part of that chain
+	e->root = NULL;
+
 	OPMLFree(pParser, free);
 }
 
